@@ -139,6 +139,12 @@ def main(argv=None):
     t0 = time.time()
     from pyvc import report
 
+    if not a.only:
+        # replay files of earlier runs are stale: every run writes the ones it finds
+        import shutil
+
+        shutil.rmtree(os.path.join("replays", a.pid), ignore_errors=True)
+
     try:
         registry, boundeds = load_sidecars()
     except Exception as ex:
